@@ -2,7 +2,7 @@
    ignores token data (every branch is explored) and tracks only the event slots that are
    Start events and the ghost set of live markers.  Outcomes: a marker panic (SMarker,
    SDropBomb, SProcess) is forbidden; the other panics and fuel exhaustion are theorem A's. *)
-From Coq Require Import NArith Arith List Bool Lia.
+From Coq Require Import NArith ZArith Arith List Bool Lia.
 From OQ3 Require Import gen.Kinds Model.Parser Model.Grammar.
 Import ListNotations.
 Local Open Scope nat_scope.
@@ -60,10 +60,68 @@ Definition Ptr (s : pst) (i d : nat) : Prop := exists k, slot s i = Some (EStart
 Definition EvOK (s : pst) : Prop := forall i d, Ptr s i d -> 0 < d /\ is_start s (i + d).
 (* no forward-parent pointer targets slot m: abandoning m may pop its event *)
 Definition NT (s : pst) (m : nat) : Prop := forall i d, Ptr s i d -> i + d <> m.
-Definition LiveOK (s : pst) : Prop :=
-  (forall m, In m (live s) -> slot s m = Some (EStart K_TOMBSTONE None)) /\ EvOK s.
+(* bracket counting: a Start slot whose kind is no longer TOMBSTONE has been completed (it
+   will emit an Enter), a Finish emits an Exit; among the oldest i events, for every i, there
+   are at least as many completed Starts as Finishes, and overall equally many *)
+Definition ctr (e : event) : Z :=
+  match e with
+  | EStart k _ => if N.eqb k K_TOMBSTONE then 0 else 1
+  | EFinish => -1
+  | _ => 0
+  end%Z.
+Fixpoint exc (l : list event) : Z := match l with [] => 0 | e :: r => ctr e + exc r end%Z.
+Definition Bal (s : pst) : Prop := (forall j, 0 <= exc (skipn j (evs s)))%Z /\ exc (evs s) = 0%Z.
 
-Definition plainev (e : event) : Prop := match e with EStart _ _ => False | _ => True end.
+Definition LiveOK (s : pst) : Prop :=
+  (forall m, In m (live s) -> slot s m = Some (EStart K_TOMBSTONE None)) /\ EvOK s /\ Bal s.
+
+Definition plainev (e : event) : Prop := match e with EToken _ _ | EError => True | _ => False end.
+
+Lemma exc_app a b : exc (a ++ b) = (exc a + exc b)%Z.
+Proof. induction a as [|e a IH]; cbn [app exc]; [reflexivity|]. rewrite IH. lia. Qed.
+Lemma exc_plain l : Forall plainev l -> exc l = 0%Z.
+Proof. induction 1 as [|e l He _ IH]; cbn [exc]; [reflexivity|]. rewrite IH. destruct e; cbn in *; tauto || lia. Qed.
+Lemma skipn_app_le {A} (a b : list A) j : j <= length a -> skipn j (a ++ b) = skipn j a ++ b.
+Proof. revert j. induction a as [|x a IH]; intros [|j] H; cbn in *; auto; try lia. apply IH. lia. Qed.
+Lemma skipn_app_ge {A} (a b : list A) j : length a <= j -> skipn j (a ++ b) = skipn (j - length a) b.
+Proof. revert j. induction a as [|x a IH]; intros [|j] H; cbn in *; auto; try lia. apply IH. lia. Qed.
+Lemma exc_skipn_plain a j : Forall plainev a -> exc (skipn j a) = 0%Z.
+Proof.
+  intros H. apply exc_plain. revert j. induction H as [|e l He Hl IH]; intros [|j]; cbn; auto.
+Qed.
+Lemma bal_app_plain l evs0 :
+  Forall plainev l -> ((forall j, 0 <= exc (skipn j evs0)) /\ exc evs0 = 0)%Z ->
+  ((forall j, 0 <= exc (skipn j (l ++ evs0))) /\ exc (l ++ evs0) = 0)%Z.
+Proof.
+  intros Hp [H1 H2]. split.
+  - intros j. destruct (le_lt_dec j (length l)) as [Hj|Hj].
+    + rewrite skipn_app_le by exact Hj. rewrite exc_app, exc_skipn_plain by exact Hp. lia.
+    + rewrite skipn_app_ge by lia. apply H1.
+  - rewrite exc_app, exc_plain by exact Hp. lia.
+Qed.
+(* rewriting slot p *)
+Lemma exc_skipn_set_nth l p x old j :
+  nth_error l p = Some old ->
+  exc (skipn j (set_nth l p x)) = (exc (skipn j l) + (if Nat.leb j p then ctr x - ctr old else 0))%Z.
+Proof.
+  revert p j. induction l as [|e l IH]; intros [|p] [|j] H; cbn in H; try discriminate.
+  - injection H as ->. cbn. lia.
+  - injection H as ->. cbn [set_nth skipn]. cbn. lia.
+  - cbn [set_nth skipn exc]. specialize (IH p 0 H). cbn [skipn] in IH. rewrite IH. cbn. lia.
+  - cbn [set_nth skipn]. rewrite (IH p j H). reflexivity.
+Qed.
+Lemma slot_nth_error s i e : slot s i = Some e -> nth_error (evs s) (nev s - 1 - i) = Some e.
+Proof. unfold slot. destruct (i <? nev s); [auto|discriminate]. Qed.
+Lemma bal_set_slot s i e old :
+  slot s i = Some old -> (ctr old <= ctr e)%Z ->
+  (forall j, 0 <= exc (skipn j (evs s)))%Z ->
+  (forall j, 0 <= exc (skipn j (evs (set_slot s i e))))%Z /\
+  exc (evs (set_slot s i e)) = (exc (evs s) + ctr e - ctr old)%Z.
+Proof.
+  intros Hs Hc HB. apply slot_nth_error in Hs. cbn [set_slot evs]. split.
+  - intros j. rewrite (exc_skipn_set_nth _ _ _ _ j Hs). specialize (HB j). destruct (Nat.leb j _); lia.
+  - pose proof (exc_skipn_set_nth _ _ e _ 0 Hs) as H. cbn [skipn] in H. rewrite H. cbn. lia.
+Qed.
 (* token/error events appended, nothing else touched *)
 Definition Appends (s s' : pst) : Prop :=
   live s' = live s /\ exists l, evs s' = l ++ evs s /\ Forall plainev l.
@@ -96,10 +154,11 @@ Lemma appends_nt s s' m : Appends s s' -> NT s m -> NT s' m.
 Proof. intros HA H i d Hp. apply H. eapply appends_ptr; eauto. Qed.
 Lemma appends_liveok s s' : Appends s s' -> LiveOK s -> LiveOK s'.
 Proof.
-  intros HA [HL HE]. split.
+  intros HA [HL [HE HB]]. split; [|split].
   - intros m Hm. pose proof HA as [E _]. rewrite E in Hm. eapply appends_slot; eauto.
   - intros i d Hp. apply (appends_ptr _ _ _ _ HA) in Hp. destruct (HE i d Hp) as [H1 H2].
     split; auto. eapply appends_is_start; eauto.
+  - destruct HA as [_ [l [El Hp]]]. unfold Bal. rewrite El. apply bal_app_plain; auto.
 Qed.
 Lemma appends_refl s : Appends s s.
 Proof. split; auto. exists []; auto. Qed.
@@ -296,6 +355,15 @@ Proof.
   - exists k1, fp1. rewrite slot_set_other; auto.
 Qed.
 
+Lemma bal_push s e lv p : ctr e = 0%Z -> Bal s -> Bal {| pos := p; evs := e :: evs s; live := lv |}.
+Proof.
+  intros He [H1 H2]. split.
+  - intros [|j]; cbn [skipn evs exc]; [lia|apply H1].
+  - cbn [evs exc]. lia.
+Qed.
+Lemma ctr_tomb fp : ctr (EStart K_TOMBSTONE fp) = 0%Z.
+Proof. reflexivity. Qed.
+
 (* start *)
 Lemma WB_start (Q : marker -> pst -> Prop) own Lb b0 V W s :
   St [] own Lb b0 V W s ->
@@ -303,14 +371,15 @@ Lemma WB_start (Q : marker -> pst -> Prop) own Lb b0 V W s :
               (forall i, Valid s i -> Valid s' i) -> Q (nev s) s') ->
   WB start Q s.
 Proof.
-  intros [[H1 HE] [H2 [H3 [H4 [H5 [H6 [H7 H8]]]]]]] HQ. unfold WB, start.
+  intros [[H1 [HE HB]] [H2 [H3 [H4 [H5 [H6 [H7 H8]]]]]]] HQ. unfold WB, start.
   assert (forall k d', EStart K_TOMBSTONE None <> EStart k (Some d')) as Hne by (intros; discriminate).
   cbn [app] in *. apply HQ.
-  - split; [split|split; [|split; [|split; [|split; [|split; [|split]]]]]].
+  - split; [split; [|split]|split; [|split; [|split; [|split; [|split; [|split]]]]]].
     + intros m [Hm|Hm].
       * subst m. apply slot_push_new.
       * apply slot_push_old. apply H1. exact Hm.
     + apply evok_push; auto.
+    + apply bal_push; auto.
     + cbn [live app]. rewrite H2. reflexivity.
     + intros i Hi. destruct (H3 i Hi) as [Hs Hn]. split.
       * apply is_start_push. exact Hs.
@@ -379,13 +448,13 @@ Qed.
 
 (* complete, on the bare state *)
 Lemma WB_complete_gen m k (Q : cmarker -> pst -> Prop) s :
-  LiveOK s -> NoDup (live s) -> In m (live s) ->
+  k <> K_TOMBSTONE -> LiveOK s -> NoDup (live s) -> In m (live s) ->
   (forall s', LiveOK s' -> live s' = remove_nat m (live s) -> NoDup (live s') ->
               (forall i, is_start s i -> is_start s' i) -> Valid s' m -> nev s' = S (nev s) ->
               (forall i, NT s i -> NT s' i) -> Q (m, k) s') ->
   WB (complete m k) Q s.
 Proof.
-  intros [H1 HE] H6 Hl HQ.
+  intros Hk [H1 [HE [HB1 HB2]]] H6 Hl HQ.
   unfold complete. apply WB_bind. apply WB_use_marker; auto.
   set (s1 := {| pos := pos s; evs := evs s; live := remove_nat m (live s) |}).
   assert (slot s1 m = Some (EStart K_TOMBSTONE None)) as Hs by (apply (H1 m Hl)).
@@ -398,12 +467,19 @@ Proof.
     apply (ptr_set_same_fp s1 m K_TOMBSTONE k None i d Hs) in Hp. exact Hp. }
   assert (forall i, is_start s i -> is_start {| pos := pos s2; evs := EFinish :: evs s2; live := live s2 |} i) as Hst.
   { intros i Hi. apply is_start_push. apply is_start_set; auto. eexists _, _; reflexivity. }
+  assert (ctr (EStart k None) = 1%Z) as Hck.
+  { cbn [ctr]. destruct (N.eqb_spec k K_TOMBSTONE); [contradiction|reflexivity]. }
+  destruct (bal_set_slot s1 m (EStart k None) _ Hs ltac:(rewrite Hck, ctr_tomb; lia) HB1) as [HB1' HB2'].
+  fold s2 in HB1', HB2'. change (evs s1) with (evs s) in HB2'. rewrite HB2, Hck, ctr_tomb in HB2'.
   apply HQ.
-  - split.
+  - split; [|split].
     + intros m' Hm'. cbn [live set_slot s2 s1] in Hm'. apply (remove_nat_notin _ _ _ H6) in Hm'.
       destruct Hm' as [Hne Hm']. apply slot_push_old. unfold s2. rewrite slot_set_other; auto.
       apply (H1 m' Hm').
     + intros i d Hp. apply Hptr in Hp. destruct (HE i d Hp) as [Hd Hi]. split; auto.
+    + split.
+      * intros [|j]; cbn [skipn evs exc ctr]; [lia|apply HB1'].
+      * cbn [evs exc ctr]. lia.
   - reflexivity.
   - cbn [live set_slot s2 s1]. apply remove_nat_nodup; auto.
   - exact Hst.
@@ -428,12 +504,12 @@ Lemma valid_shrink s s' : (forall i, is_start s i -> is_start s' i) -> (forall i
 Proof. intros A B i [H1 H2]. split; auto. Qed.
 
 Lemma WB_complete m k (Q : cmarker -> pst -> Prop) pre own Lb b0 V W s :
-  St pre own Lb b0 V W s -> In m own ->
+  k <> K_TOMBSTONE -> St pre own Lb b0 V W s -> In m own ->
   (forall s', St pre (remove_nat m own) Lb b0 V W s' -> Valid s' m -> nev s <= nev s' ->
               (forall i, Valid s i -> Valid s' i) -> Q (m, k) s') ->
   WB (complete m k) Q s.
 Proof.
-  intros HS Hin HQ. pose proof HS as [H1 [H2 [H3 [H4 [H5 [H6 [H7 H8]]]]]]].
+  intros Hk HS Hin HQ. pose proof HS as [H1 [H2 [H3 [H4 [H5 [H6 [H7 H8]]]]]]].
   pose proof (in_own_live _ _ _ _ _ _ _ _ HS Hin) as Hl.
   pose proof (own_notin_pre _ _ _ _ _ _ _ _ HS Hin) as Hnp.
   apply WB_complete_gen; auto. intros s' A1 A2 A3 A4 A5 A6 A7.
@@ -447,12 +523,12 @@ Proof.
   - intros i Hi. apply In_remove_nat in Hi. auto.
 Qed.
 Lemma WB_complete_pre m k (Q : cmarker -> pst -> Prop) own Lb b0 V W s :
-  St [m] own Lb b0 V W s ->
+  k <> K_TOMBSTONE -> St [m] own Lb b0 V W s ->
   (forall s', St [] own Lb b0 V W s' -> Valid s' m -> nev s <= nev s' ->
               (forall i, Valid s i -> Valid s' i) -> Q (m, k) s') ->
   WB (complete m k) Q s.
 Proof.
-  intros HS HQ. pose proof HS as [H1 [H2 [H3 [H4 [H5 [H6 [H7 H8]]]]]]].
+  intros Hk HS HQ. pose proof HS as [H1 [H2 [H3 [H4 [H5 [H6 [H7 H8]]]]]]].
   assert (In m (live s)) as Hl by (rewrite H2; left; reflexivity).
   apply WB_complete_gen; auto. intros s' A1 A2 A3 A4 A5 A6 A7.
   assert (forall i, Valid s i -> Valid s' i) as Hv.
@@ -488,7 +564,7 @@ Lemma WB_abandon_gen m (Q : unit -> pst -> Prop) s :
               (forall i, NT s i -> NT s' i) -> Q tt s') ->
   WB (abandon m) Q s.
 Proof.
-  intros [H1 HE] H6 Hl Hnt HQ.
+  intros [H1 [HE [HB1 HB2]]] H6 Hl Hnt HQ.
   unfold abandon. apply WB_bind. apply WB_use_marker; auto.
   set (s1 := {| pos := pos s; evs := evs s; live := remove_nat m (live s) |}).
   pose proof (H1 m Hl) as Hs. pose proof (slot_some_lt _ _ _ Hs) as Hlt.
@@ -507,11 +583,14 @@ Proof.
     assert (forall i d, Ptr s2 i d -> Ptr s i d) as Hptr.
     { intros i d [k Hp]. exists k. eapply slot_pop_inv; eauto. }
     apply HQ.
-    + split.
+    + split; [|split].
       * intros m' Hm'. cbn [live s2 s1] in Hm'. apply (remove_nat_notin _ _ _ H6) in Hm'.
         destruct Hm' as [Hne Hm']. apply Hother; auto.
       * intros i d Hp. apply Hptr in Hp. destruct (HE i d Hp) as [Hd [k' [fp' Hi]]]. split; auto.
         exists k', fp'. apply Hother; auto.
+      * split.
+        -- intros j. specialize (HB1 (S j)). cbn [skipn] in HB1. exact HB1.
+        -- cbn [evs s2]. cbn [exc] in HB2. rewrite ctr_tomb in HB2. lia.
     + reflexivity.
     + cbn [live s2 s1]. apply remove_nat_nodup; auto.
     + intros i Hi [k' [fp' Hs']]. exists k', fp'. apply Hother; auto.
@@ -520,9 +599,10 @@ Proof.
     + right. unfold nev. cbn [evs s2]. rewrite Ev. reflexivity.
     + intros i Hi j d Hp. apply Hi. apply Hptr. exact Hp.
   - apply HQ.
-    + split.
+    + split; [|split].
       * intros m' Hm'. cbn [live s1] in Hm'. apply In_remove_nat in Hm'. apply (H1 m' Hm').
       * exact HE.
+      * split; [exact HB1|exact HB2].
     + reflexivity.
     + cbn [live s1]. apply remove_nat_nodup; auto.
     + intros i _ Hi. exact Hi.
@@ -564,7 +644,7 @@ Lemma WB_precede_gen cm (Q : marker -> pst -> Prop) s :
               (forall i, i <> nev s -> NT s i -> NT s' i) -> Q (nev s) s') ->
   WB (precede cm) Q s.
 Proof.
-  intros [H1 HE] H6 [[k [fp Hc]] Hn] HQ. unfold precede, WB, bind, start.
+  intros [H1 [HE [HB1 HB2]]] H6 [[k [fp Hc]] Hn] HQ. unfold precede, WB, bind, start.
   set (s1 := {| pos := pos s; evs := EStart K_TOMBSTONE None :: evs s; live := nev s :: live s |}).
   assert (slot s1 (fst cm) = Some (EStart k fp)) as Hc1 by (apply slot_push_old; exact Hc).
   rewrite Hc1. pose proof (slot_some_lt _ _ _ Hc) as Hlt.
@@ -580,8 +660,11 @@ Proof.
         [intros; discriminate|]. exists k1. exact Hp. }
   assert (is_start s2 (nev s)) as Hnew.
   { exists K_TOMBSTONE, None. unfold s2. rewrite slot_set_other by lia. apply slot_push_new. }
+  assert (Bal s1) as [HB1' HB2'] by (apply bal_push; [apply ctr_tomb|split; auto]).
+  destruct (bal_set_slot s1 (fst cm) (EStart k (Some (nev s - fst cm))) _ Hc1
+              ltac:(cbn [ctr]; lia) HB1') as [HB1'' HB2''].
   apply HQ.
-  - split.
+  - split; [|split].
     + intros m' Hm'. cbn [live set_slot s2 s1] in Hm'. unfold s2.
       assert (fst cm <> m') as Hne by (intros <-; destruct Hm' as [Hm'|Hm']; [lia|contradiction]).
       rewrite slot_set_other by auto.
@@ -589,6 +672,7 @@ Proof.
     + intros i d Hp. apply Hptr in Hp. destruct Hp as [Hp|[-> ->]].
       * destruct (HE i d Hp) as [Hd Hi]. split; auto.
       * split; [lia|]. replace (fst cm + (nev s - fst cm)) with (nev s) by lia. exact Hnew.
+    + split; [exact HB1''|]. fold s2 in HB2''. rewrite HB2''. cbn [ctr]. lia.
   - reflexivity.
   - cbn [live set_slot s2 s1]. constructor; auto. intros Hin. apply H1 in Hin. apply slot_some_lt in Hin. lia.
   - exact Hst.
@@ -627,7 +711,7 @@ Lemma WB_extend_to_gen cm m (Q : cmarker -> pst -> Prop) s :
               (forall i, i <> fst cm -> NT s i -> NT s' i) -> Q cm s') ->
   WB (extend_to cm m) Q s.
 Proof.
-  intros [H1 HE] H6 Hl [Hcs Hnc] Hlt0 HQ.
+  intros [H1 [HE [HB1 HB2]]] H6 Hl [Hcs Hnc] Hlt0 HQ.
   unfold extend_to. apply WB_bind. apply WB_use_marker; auto.
   set (s1 := {| pos := pos s; evs := evs s; live := remove_nat m (live s) |}).
   pose proof (H1 m Hl) as Hs. pose proof (slot_some_lt _ _ _ Hs) as Hlt.
@@ -640,13 +724,17 @@ Proof.
   { intros i d [k1 Hp]. apply slot_set_inv in Hp; auto. destruct Hp as [[-> Hp]|[Hne Hp]].
     - right. split; auto. congruence.
     - left. exists k1. exact Hp. }
+  destruct (bal_set_slot s1 m (EStart K_TOMBSTONE (Some (fst cm - m))) _ Hs
+              ltac:(rewrite !ctr_tomb; lia) HB1) as [HB1' HB2'].
   apply HQ.
-  - split.
+  - split; [|split].
     + intros m' Hm'. cbn [live set_slot s2 s1] in Hm'. apply (remove_nat_notin _ _ _ H6) in Hm'.
       destruct Hm' as [Hn' Hm']. unfold s2. rewrite slot_set_other; auto. apply (H1 m' Hm').
     + intros i d Hp. apply Hptr in Hp. destruct Hp as [Hp|[-> ->]].
       * destruct (HE i d Hp) as [Hd Hi]. split; auto.
       * split; [lia|]. replace (m + (fst cm - m)) with (fst cm) by lia. apply Hst. exact Hcs.
+    + split; [exact HB1'|]. fold s2 in HB2'. rewrite HB2'. rewrite !ctr_tomb.
+      change (evs s1) with (evs s). lia.
   - reflexivity.
   - cbn [live set_slot s2 s1]. apply remove_nat_nodup; auto.
   - exact Hst.
